@@ -48,6 +48,13 @@ variant_flags() {
 		HFLAGS="-O1 -g -fno-omit-frame-pointer"
 		LDX=""
 		;;
+	cov)
+		# coverage of json-c itself under the simulated workloads (scripts/coverage.sh); not used by any check
+		CC=clang; CXX=clang++; CFG=cfg
+		JCFLAGS="-O0 -g -fno-inline -fno-omit-frame-pointer -fprofile-instr-generate -fcoverage-mapping -D_GNU_SOURCE"
+		HFLAGS="-O1 -g -fno-omit-frame-pointer"
+		LDX="-fprofile-instr-generate"
+		;;
 	thr)
 		CC=clang; CXX=clang++; CFG=cfg-thr
 		JCFLAGS="-O1 -g -fno-inline -fno-omit-frame-pointer -fno-optimize-sibling-calls -fsanitize=thread -DNDEBUG -D_GNU_SOURCE -D_REENTRANT"
